@@ -1742,6 +1742,33 @@ def option_bool_alts(P, fn, c):
     return alts or None
 
 
+def _path_blocks(body, path, target):
+    """frozenset of the blocks of the acyclic path entry -> target given by its switch edges; None when the walk is not
+    determined by them (a non-switch block with two live successors)."""
+    edges = dict(path)
+    if len(edges) != len(path):
+        return None
+    cur, seen = 0, [0]
+    while cur != target:
+        t = body.blocks[cur]["term"]
+        if t["k"] == "switch":
+            nxt = edges.get(cur)
+            if nxt is None:
+                return None
+        else:
+            live = [s for s in body.succs[cur] if not body.blocks[s]["cleanup"] and target in body.reachable_from(s)]
+            if target in body.succs[cur]:
+                live = [target]
+            if len(live) != 1:
+                return None
+            nxt = live[0]
+        if nxt in seen:
+            return None
+        seen.append(nxt)
+        cur = nxt
+    return frozenset(seen)
+
+
 def path_conjunctions(P, fn, b, limit=96):
     """Every acyclic path entry -> b as a conjunction of conditions (control_conditions form), with `check(..)?` helpers
     and bool flags expanded.  Unlike control_conditions (what holds on *all* paths) this keeps the paths apart, so a block
@@ -1757,8 +1784,18 @@ def path_conjunctions(P, fn, b, limit=96):
     out = []
     for path in paths:
         rows = [[]]
+        # the conditions of one path are read along that path: where a tested local has several reaching definitions
+        # (`let sent = match found { Some(c) => c.amount, None => zero }; if amount == sent`), the ones lying on the
+        # path are the ones that can reach the test on it (val_local_in keeps all of them when none lies on the path)
+        pblocks = _path_blocks(body, path, b)
         for (sw, tb) in path:
-            c = edge_condition(P, fn, sw, tb)
+            old_prefer = P._prefer
+            if pblocks is not None:
+                P._prefer = (fn.path, pblocks)
+            try:
+                c = edge_condition(P, fn, sw, tb)
+            finally:
+                P._prefer = old_prefer
             if c is None:
                 continue
             gl = hgl.get(sw, [])
